@@ -1,6 +1,15 @@
+(* C06/Proofs.v — lemmas behind Properties.v. *)
 From Common Require Import Bytes Blake2b.
 From Trie Require Import Nibbles Node Encode Spec.
-From C06 Require Import Model.
+From C06 Require Import Model MapSem Gen.
+From Coq Require Import Arith Lia.
+Local Open Scope nat_scope.
+
+(* constants read from the Go source on every run *)
+Example gen_v1_max_inline : Gen.v1_max_inline_value_size = 32%Z.
+Proof. reflexivity. Qed.
+Example gen_children_capacity : Gen.children_capacity = 16%Z.
+Proof. reflexivity. Qed.
 
 Definition k1234 : list byte := [n2b 18; n2b 52].
 Definition v32 : list byte := repeat (n2b 171) 32.
@@ -9,3 +18,57 @@ Definition v32 : list byte := repeat (n2b 171) 32.
 Lemma threshold_pinned_refuted :
   engine_root_pinned blake2b_256 V1 [OPut k1234 v32] <> engine_root blake2b_256 V1 [OPut k1234 v32].
 Proof. vm_compute. intro E; discriminate E. Qed.
+
+(* a value is stored by hash exactly when the version is V1 and it is longer than 32 bytes *)
+Lemma threshold ver v :
+  value_hashed ver v = true <-> ver = V1 /\ (Z.to_nat Gen.v1_max_inline_value_size < length v).
+Proof.
+  unfold value_hashed, must_be_hashed. destruct ver; simpl.
+  - split; [discriminate | intros [E _]; discriminate].
+  - change (Z.to_nat Gen.v1_max_inline_value_size) with 32. unfold v1_max_inline_value.
+    destruct (Nat.ltb_spec 32 (length v)); split; auto; try discriminate. intros [_ ?]. lia.
+Qed.
+
+Lemma root_spec H ver ops : engine_root H ver ops = spec_root_bytes H ver (map_of ops).
+Proof. reflexivity. Qed.
+
+(* the root depends on the denoted map only, not on the order or number of operations *)
+Lemma root_order_independent H ver ops1 ops2 :
+  (forall k, last_write ops1 k = last_write ops2 k) -> engine_root H ver ops1 = engine_root H ver ops2.
+Proof.
+  intros Heq. unfold engine_root. f_equal.
+  (* two sorted duplicate-free maps with the same lookups are equal *)
+  assert (Hext : forall m1 m2, bsorted m1 -> bsorted m2 -> (forall k, bm_get m1 k = bm_get m2 k) -> m1 = m2).
+  { induction m1 as [|[k1 v1] m1 IH]; intros [|[k2 v2] m2] S1 S2 E; auto.
+    - specialize (E k2). simpl in E. rewrite (proj2 (bytes_eqb_compare k2 k2) (bytes_compare_refl _)) in E. discriminate.
+    - specialize (E k1). simpl in E. rewrite (proj2 (bytes_eqb_compare k1 k1) (bytes_compare_refl _)) in E. discriminate.
+    - inversion S1 as [|? ? S1' F1]; inversion S2 as [|? ? S2' F2]; subst.
+      assert (Ek : k1 = k2).
+      { destruct (bytes_compare k1 k2) eqn:C.
+        - apply bytes_compare_eq; auto.
+        - exfalso. pose proof (E k1) as E1. simpl in E1.
+          rewrite (proj2 (bytes_eqb_compare k1 k1) (bytes_compare_refl _)) in E1.
+          rewrite bytes_eqb_false_compare in E1.
+          + rewrite bm_get_none_below in E1; [discriminate|].
+            eapply Forall_impl; [|exact F2]. intros e He. unfold blt in He; simpl in He. eapply bytes_compare_trans; eauto.
+          + rewrite bytes_compare_antisym, C. discriminate.
+        - exfalso. pose proof (E k2) as E2. simpl in E2.
+          rewrite (proj2 (bytes_eqb_compare k2 k2) (bytes_compare_refl _)) in E2.
+          assert (C' : bytes_compare k2 k1 = Lt) by (rewrite bytes_compare_antisym, C; reflexivity).
+          rewrite bytes_eqb_false_compare in E2.
+          + rewrite bm_get_none_below in E2; [discriminate|].
+            eapply Forall_impl; [|exact F1]. intros e He. unfold blt in He; simpl in He. eapply bytes_compare_trans; eauto.
+          + rewrite C. discriminate. }
+      subst k2. pose proof (E k1) as E1. simpl in E1.
+      rewrite (proj2 (bytes_eqb_compare k1 k1) (bytes_compare_refl _)) in E1. inversion E1; subst v2.
+      f_equal. apply IH; auto. intros k. specialize (E k). simpl in E.
+      destruct (bytes_eqb k1 k) eqn:Ek; auto.
+      destruct (bytes_eqb_spec k1 k); [|discriminate]. subst k.
+      rewrite (bm_get_none_below m1 k1) by (eapply Forall_impl; [|exact F1]; auto).
+      rewrite (bm_get_none_below m2 k1) by (eapply Forall_impl; [|exact F2]; auto). reflexivity. }
+  apply Hext; auto using bsorted_map_of. intros k. rewrite !map_of_last_write. auto.
+Qed.
+
+(* what a reopened instance must return: the last value written to the key *)
+Lemma reopen_last_write ops k : reopen_get ops k = last_write ops k.
+Proof. apply map_of_last_write. Qed.
